@@ -21,8 +21,8 @@ KINDS = "map,cont,flag,counter,i64,u32,u64,str,gas"
 
 # driver rounds (a gas round yields one history per function it executed, so the number of validated histories is larger)
 TIERS = {
-    "quick": dict(plain=[600] * 4, race=[500] * 4, bulk_plain=1000, bulk_race=1500, bulkreps=1, par=4),
-    "thorough": dict(plain=[2500] * 20, race=[2000] * 16, bulk_plain=4000, bulk_race=4000, bulkreps=3, par=6),
+    "quick": dict(plain=[500] * 3, race=[400] * 3, bulk_plain=1000, bulk_race=1500, bulkreps=1, par=4),
+    "thorough": dict(plain=[2500] * 16, race=[2000] * 12, bulk_plain=4000, bulk_race=4000, bulkreps=3, par=6),
 }
 
 LOCK_CFG = "SPECIFICATION LSpec\nCONSTANT NoLock = FALSE\nINVARIANTS LTypeOK OneSchedule HeldStable MutualExclusion\n"
@@ -204,7 +204,10 @@ def describe_sched(ls):
             c = calls.pop(d["g"])
             if c["op"] == "exec":
                 ks = decode(d["r"], c["m"], c["n"])
-                if not ks:
+                if d["r"] < 0:
+                    out.append("exec g=%d of %s FAILED under concurrency (%s) although the identical call on an identical account succeeds sequentially: charged by no schedule" % (
+                        c["g"], c.get("fn", "?"), c.get("err", "?")))
+                elif not ks:
                     kb = d["r"] // (100000 * c["m"]) if d["r"] > 0 else -1
                     rest = d["r"] - 100000 * c["m"] * kb
                     kp = (rest // c["n"] if rest % c["n"] == 0 else round(rest / c["n"], 2)) if c["n"] else None
@@ -269,6 +272,9 @@ def toy_rounds():
     add(False, "bulk", 0, [], [{"e": "bulk", "obj": "counter", "init": 0, "sum": 10, "final": 9}])
     add(False, "bulk", 0, [], [{"e": "bulk", "obj": "ticket", "init": 0, "ops": 10, "distinct": 9, "final": 10}])
     add(False, "bulk", 0, [], [{"e": "bulk", "obj": "gas", "execs": 1, "charges": [{"c": 300014, "m": 1, "n": 7}]}])
+    add(True, "bulk", 0, [], [{"e": "bulk", "obj": "drain", "sum": 50, "drained": 44, "final": 6}, {"e": "bulk", "obj": "tas", "iters": 9, "winners": 9}])
+    add(False, "bulk", 0, [], [{"e": "bulk", "obj": "drain", "sum": 50, "drained": 40, "final": 6}])
+    add(False, "bulk", 0, [], [{"e": "bulk", "obj": "tas", "iters": 9, "winners": 10}])
     add(True, "cont", 0, [(1, "Add", kv("f1", 3), "nil", 1, 2), (2, "Add", kv("f1", 4), "exists", 3, 4), (1, "Get", kv("f1", 0), {"id": 3, "err": "nil"}, 5, 6),
                           (2, "Keys", kv("", 0), ["f1"], 7, 8), (1, "Add", kv("", 0), "nilElement", 9, 10), (1, "Add", kv("", 7), "emptyName", 11, 12),
                           (2, "Replace", kv("f1", 9), "nil", 13, 14), (1, "Get", kv("f2", 0), {"id": 0, "err": "invalidKey"}, 15, 16), (1, "Len", kv("", 0), 1, 17, 18)], [])
@@ -475,7 +481,8 @@ def run_c19(run):
         run.cov["counters"]["nolock_mixture_found"] = 1
         n_self, n_rej = f_toys.result()         # Infra when the checker misjudges a hand-made history
         exe_race = f_race.result()
-    run.cov["exhaustive"] = True   # of the lock-protocol model; schedule exploration on the real code is random
+    run.cov["exhaustive"] = False                                  # schedule exploration on the real code is random ...
+    run.cov["exhaustive_parts"] = "lock-protocol model (Concurrency.tla part 2) only; every recorded round is searched exhaustively for a linearization"
 
     jobs = []
     toff = 0 if run.tier == "quick" else 100     # the tiers draw different operation mixes
